@@ -671,3 +671,9 @@ def check(run):
     run.rule('R3', r3_getters, 'typed getters conform to the documented template', floor=90)
     run.rule('R4', r4_to_query_str, 'to_query_str encodes keys and values', floor=8)
     run.rule('R5', r5_options, 'both request classes pass keep_blank/csv options to parse_query_string', floor=6)
+    # percent-decoding of names and values rests on the escape table and the
+    # three decoder paths (shared with C10)
+    from . import c10 as _c10
+
+    run.rule('R6', _c10._safe(_c10.r2_escape_shape), '_HEX_TO_BYTE covers every hex pair of both cases (shared with C10 R2)', floor=10)
+    run.rule('R7', _c10._safe(_c10.r4_decoder_paths), 'decoder paths share one skeleton; plus handling (shared with C10 R4)', floor=20)
